@@ -92,7 +92,9 @@ func rootedInLocal(v ssa.Value) bool {
 				}
 				return false
 			}
-			v = inner
+			// a pointer/slice loaded from a field or element: its pointee is not
+			// local storage even when the field itself lives in a local struct
+			return false
 		case *ssa.MakeSlice, *ssa.MakeMap:
 			return true
 		case *ssa.Slice:
